@@ -65,6 +65,15 @@ Fixpoint flat (base : N) (t : cty) : list (N * scalar) :=
   end.
 Definition elems (t : cty) : list scalar := map snd (flat 0 t).
 
+(* arch.go elementTypesCount: the number of scalar leaves, computed on its own (not as the
+   length of elementTypes): an array counts length x the count of its element *)
+Fixpoint ecount (t : cty) : N :=
+  match t with
+  | CS _ => 1
+  | CArr n e => n * ecount e
+  | CStruct fs => fold_right (fun f x => ecount f + x) 0 fs
+  end.
+
 (* the flat struct with the same element types; arch.go cannot tell it from t *)
 Definition flat_struct (l : list scalar) : cty := CStruct (map CS l).
 
@@ -129,23 +138,23 @@ Definition sub_type (al : N) (subs : list scalar) (left : bool) : coerced :=
               KInt (align_up n al * 8)
   end.
 
-Definition gti_core (sz al : N) (ts : list scalar) : tinfo :=
-  match ts with
-  | [] | [_] => TKeep
-  | _ =>
-      if 16 <? sz then TPtr
-      else if sz <=? 8 then
-        TW1 (match ts with SF32 :: SF32 :: _ => KV2F | _ => KInt (sz * 8) end)
-      else
-        let general :=
-          let idx := N.to_nat (find_index ts 0 0) in
-          TW2 (sub_type al (firstn idx ts) true) (sub_type al (skipn idx ts) false) in
-        match ts with
-        | [a; b] => if (ssz a =? 8) || (ssz b =? 8) then TW2 (KScalar a) (KScalar b) else general
-        | _ => general
-        end
-  end.
-Definition gti (t : cty) : tinfo := gti_core (csize t) (calign t) (elems t).
+(* n is elementTypesCount(typ), ts is elementTypes(typ) *)
+Definition gti_core (sz al n : N) (ts : list scalar) : tinfo :=
+  if n <? 2 then TKeep
+  else if 16 <? sz then TPtr
+  else if sz <=? 8 then
+    TW1 (match ts with SF32 :: SF32 :: _ => KV2F | _ => KInt (sz * 8) end)
+  else
+    let general :=
+      let idx := N.to_nat (find_index ts 0 0) in
+      TW2 (sub_type al (firstn idx ts) true) (sub_type al (skipn idx ts) false) in
+    if n =? 2 then
+      match ts with
+      | a :: b :: _ => if (ssz a =? 8) || (ssz b =? 8) then TW2 (KScalar a) (KScalar b) else general
+      | _ => general
+      end
+    else general.
+Definition gti (t : cty) : tinfo := gti_core (csize t) (calign t) (ecount t) (elems t).
 
 (* LLVM facts about the coerced types: bytes touched by a load/store, ABI alignment, alloc size *)
 Definition kstore (c : coerced) : N :=
